@@ -42,7 +42,7 @@ GROUP_THEOREMS = {
     'group': ['group_place_is_model', 'group_place_keeps_keys_distinct'],
     'filter': ['key_regex_filter_is_model'],
     'insertall': ['insert_leaves_other_unchanged', 'insert_on_model_extension', 'insert_treats_keys_independently', 'insert_treats_keys_independently_on_model_extension',
-                  'insert_key_step_non_slice_is_model', 'insert_key_step_slice_is_model', 'insert_key_step_sample_is_model'],
+                  'insert_key_step_non_slice_is_model', 'insert_key_step_slice_is_model', 'insert_key_step_sample_is_model', 'insert_try_ends_normally_when_steps_do'],
     'content': ['filter_meta_filters_every_valid_dictionary', 'filter_meta_is_model', 'clear_slice_meta_is_model', 'get_keys_is_model'],
     'orient': ['check_voxel_order_is_model'],
     'phoenix': ['parse_phoenix_line_is_model', 'parse_phoenix_prot_is_model'],
